@@ -152,7 +152,10 @@ func coalesceGlobals(printf printFn, dest, src map[string]interface{}, prefix st
 	// tables in globals.
 	for key, val := range sg {
 		if istable(val) {
-			vv := copyMap(val.(map[string]interface{}))
+			// The copy has to reach the nested tables too: the subchart's own
+			// globals are merged into it below, and a table shared with the
+			// parent would carry them on to the subchart's siblings.
+			vv := deepCopyTable(val.(map[string]interface{}))
 			if destv, ok := dg[key]; !ok {
 				// Here there is no merge. We're just adding.
 				dg[key] = vv
@@ -179,6 +182,19 @@ func coalesceGlobals(printf printFn, dest, src map[string]interface{}, prefix st
 		}
 	}
 	dest[GlobalKey] = dg
+}
+
+// deepCopyTable copies a table and every table nested in it (other values are shared).
+func deepCopyTable(src map[string]interface{}) map[string]interface{} {
+	m := make(map[string]interface{}, len(src))
+	for k, v := range src {
+		if t, ok := v.(map[string]interface{}); ok {
+			m[k] = deepCopyTable(t)
+		} else {
+			m[k] = v
+		}
+	}
+	return m
 }
 
 func copyMap(src map[string]interface{}) map[string]interface{} {
